@@ -475,6 +475,9 @@ def write_library(dirname, filename, units, groups, include=(), scheme_from='Xie
     if groups:
         lines.append('groups:')
     for name, entries in groups.items():
+        if entries is None:                     # a group listed without any property set
+            lines.append('    "%s": {}' % name)
+            continue
         lines.append('    "%s":' % name)
         lines.append('        thermochem:')
         for k, v in entries.items():
@@ -721,6 +724,17 @@ def c13_merges(tier, seed):
             kind_, lib = real.outcome(GroupLibrary.Load, p)
             if kind_ == 'exc' or state(lib['C(C)(H)3']['thermochem']) != ref:
                 viol.append({'id': 'nested-include-through-%s' % top_inc[0], 'input': 'library (H) -> %s (other group only) -> s, c, c2' % top_inc[0],
+                             'observed': lib if kind_ == 'exc' else state(lib['C(C)(H)3']['thermochem']), 'expected': ref})
+        # an empty piece: the group is listed without any property set in the including file (or in a sibling), all its data come from includes
+        write_library(tmp, 'empty.yaml', units, {'C(C)(H)3': None})
+        for label, top_groups, top_inc in (('listed-empty-in-the-including-file', {'C(C)(H)3': None}, ['h.yaml', 's.yaml', 'c.yaml', 'c2.yaml']),
+                                           ('listed-empty-in-a-sibling-first', {}, ['empty.yaml', 'h.yaml', 's.yaml', 'c.yaml', 'c2.yaml']),
+                                           ('listed-empty-in-a-sibling-last', {}, ['h.yaml', 's.yaml', 'c.yaml', 'c2.yaml', 'empty.yaml'])):
+            p = write_library(tmp, 'library.yaml', units, top_groups, include=top_inc)
+            n += 1
+            kind_, lib = real.outcome(GroupLibrary.Load, p)
+            if kind_ == 'exc' or state(lib['C(C)(H)3']['thermochem']) != ref:
+                viol.append({'id': 'empty-piece-' + label, 'input': {'groups of the top file': 'C(C)(H)3: {}' if top_groups else 'none', 'include': top_inc},
                              'observed': lib if kind_ == 'exc' else state(lib['C(C)(H)3']['thermochem']), 'expected': ref})
         # conflicting files
         for a, b in (('h.yaml', 'h0.yaml'), ('h0.yaml', 'h.yaml')):
@@ -1334,6 +1348,36 @@ def c16_rewriter(tier, seed):
             pass
         except Exception as ex:    # noqa
             viol.append({'id': 'cancelling-imbalance-%s' % name_, 'input': t2, 'observed': type(ex).__name__, 'expected': 'RINGReaderError (electron balance)'})
+    # K10 (recorded finding): the reader books every edit against the bond / radical count the PATTERN declares, not against the state the earlier edits
+    # of the same rule left.  A second edit on the same bond or atom is therefore mis-booked: unbalanced rules are read, balanced ones refused.
+    # The verdict expected below is the one of a reader that follows the edits in order; where the rule is read, its effect on a molecule is shown.
+    P_ = 'C labeled c1 C labeled c2 single bond to c1'
+    H_ = 'C labeled c1 H labeled h single bond to c1'
+    k10 = [('increase-then-break', P_, 'increase bond order (c1, c2) break bond (c1, c2)', 'rejected', 'CC'),          # 1 -> 2 -> no bond, no radical: each carbon one electron short
+           ('break-twice', P_, 'break bond (c1, c2) break bond (c1, c2) increase number of radical (c1) increase number of radical (c1) increase number of radical (c2) increase number of radical (c2)', 'rejected', 'CC'),
+           ('radical-set-after-increase', H_, 'break bond (c1, h) increase number of radical (h) increase number of radical (c1) modify number of radical (c1, 0)', 'rejected', 'C'),
+           ('double-then-single', P_, 'modify bond (c1, c2, double) modify bond (c1, c2, single)', 'accepted', 'CC'),       # net no-op: balanced
+           ('radical-set-twice', H_, 'modify number of radical (c1, 1) modify number of radical (c1, 0)', 'accepted', 'C')]  # net no-op: balanced
+    with real.quiet():
+        for name_, patt_, edits_, want_, smi_ in k10:
+            n += 1
+            t2 = 'rule x{ reactant r1{ %s } %s }' % (patt_, edits_)
+            try:
+                q_ = Read(t2)
+                got_ = 'accepted'
+            except RINGReaderError:
+                got_ = 'rejected'
+            except Exception as ex:    # noqa
+                got_ = 'raised %s' % type(ex).__name__
+            if got_ != want_:
+                effect = None
+                if got_ == 'accepted':
+                    try:
+                        effect = sorted(sorted(Chem.MolToSmiles(f) for f in ps) for ps in q_.RunReactants(Chem.MolFromSmiles(smi_)))[:2]
+                    except Exception as ex:    # noqa
+                        effect = 'RunReactants raised %s' % type(ex).__name__
+                viol.append({'id': 'sequential-booking-%s' % name_, 'cls': 'K10:edits-booked-against-declared-state', 'input': t2, 'observed': [got_, {'products of ' + smi_: effect}],
+                             'expected': want_ + ' (electron balance of each labelled atom, edits taken in order)'})
     return {'name': 'independent-graph-rewriter', 'evaluations': n, 'distinct_nontrivial': distinct, 'violations': viol, 'samples': samples,
             'bound': '%d unimolecular rules (1-3 atom reactant, break/form/increase/decrease bond, radical +/-/set) and their unbalanced variants x %d molecules' % (len(C16_RULES), len(smiles)),
             'rule': 'a case is (rule, molecule); rules distinct'}
